@@ -9,8 +9,9 @@
    [pair_selects], [times_selected], [in_space], [requested], [pair_lt], [ffcs_key], [pair_well_formed]
    are defined in Spec/Regions.v from the documented meaning of a region word. *)
 From Coq Require Import ZArith List Bool Sorted.
-Require Import Rig.Generated.GenRegions Rig.Model.Base Rig.Model.Regions Rig.Spec.Regions.
-Require Import Rig.Proofs.RegionsBits Rig.Proofs.RegionsLists Rig.Proofs.Regions Rig.Proofs.RegionsOrder.
+Require Import Rig.Generated.GenRegions Rig.Generated.GenRegionsFill Rig.Model.Base Rig.Model.Regions
+  Rig.Model.RegionsFill Rig.Spec.Regions Rig.Spec.RegionsFill.
+Require Import Rig.Proofs.RegionsBits Rig.Proofs.RegionsLists Rig.Proofs.Regions Rig.Proofs.RegionsOrder Rig.Proofs.RegionsFill.
 Import ListNotations.
 Open Scope Z_scope.
 
@@ -79,6 +80,43 @@ Theorem C12_region_code_digits :
   forall bx by_ l, 0 <= bx < 256 -> 0 <= by_ < 256 -> 0 <= l <= 3 -> by_ mod 4 = 0 ->
     region_code bx by_ l = (bx * 256 + by_ + l) * 2 ^ 16.
 Proof. exact region_code_digits. Qed.
+
+(* ONE RegionCoreTree used as an object (Model/RegionsFill.v): add_core calls interleaved with complete
+   traversals, any number of each, duplicates allowed.  Every traversal selects exactly the cores added before
+   it, each once -- a traversal neither changes the tree nor depends on earlier traversals. *)
+Theorem C12_tree_reads_exact :
+  forall ops, Forall in_space (adds_of ops) ->
+    exists reads, tree_session 3 ops = Ok reads /\ Forall2 exact_cover reads (read_prefixes ops []).
+Proof. exact tree_reads_exact. Qed.
+
+(* The entry point MachineController.flood_fill_aplx: the FFCS packets actually sent for one application (their
+   (arg1, arg2) as built by _send_ffcs, generated from the source) carry the core-select command, and the
+   (region, core mask) pairs the machine reads out of them are an exact cover of the requested cores, sent in
+   strictly increasing order of region. *)
+Theorem C12_flood_fill_packets_exact :
+  forall cs, Forall in_space cs ->
+    exists pk, ffcs_packets cs = Ok pk /\
+      Forall (fun a => packet_command a = nn_flood_fill_core_select) pk /\
+      exact_cover (map packet_pair pk) cs /\
+      StronglySorted (fun a b => fst a < fst b) (map packet_pair pk).
+Proof. exact flood_fill_packets_exact. Qed.
+
+Theorem C12_flood_fill_outside_space_raises :
+  forall cs, Exists (fun c => ~ in_space c) cs -> ffcs_packets cs = Failed 0.
+Proof. exact flood_fill_packets_outside. Qed.
+
+(* load_application's re-load fill asks for exactly the requested cores that are not in the wait state (on
+   exactly their chips); with C12_flood_fill_packets_exact: its packets select those cores and no others. *)
+Theorem C12_reload_requests_failed_cores :
+  forall state ts x y p,
+    requested (flatten_targets (reload_targets state ts)) x y p
+    = requested (flatten_targets ts) x y p && negb (state x y p =? app_state_wait).
+Proof. exact reload_requests_failed_cores. Qed.
+
+Example C12_tree_session_instance :
+  Forall in_space (adds_of ex_ops) /\
+  tree_session 3 ex_ops = Ok [[]; [(196609, 2)]; [(196609, 2)]; [(196609, 2); (4390913, 8)]].
+Proof. exact ex_ops_ok. Qed.
 
 (* Non-vacuity: the target set of rig's own test (two level-3 blocks, different cores per chip), given
    with a duplicate and in scrambled order, is inside the space, and the model returns for it the four
